@@ -502,6 +502,11 @@ func (a *Activation) step(instr ssa.Instruction, st *State) *State {
 		// zero-initialise
 		t.storeAt(st, prefixFor(T), "", ref, "", T, t.zeroValue(T))
 		a.zeroAtomicBools(st, prefixFor(T), ref, T, 0)
+		if typeKey(T) == "sync.Mutex" {
+			// the zero value of a mutex is unlocked
+			t.regArray("$held", "(Array Int Bool)")
+			t.set(st, "$held", sApp("store", t.lookup(st, "$held"), ref, tFalse))
+		}
 		a.env[in] = Val{K: KRef, T: in.Type(), S: ref}
 	case *ssa.FieldAddr:
 		x := a.val(in.X, st)
